@@ -757,6 +757,68 @@ def cacheStep (st : Bytes) (str : Bytes) (detect : Option Bytes) (f : Parsed →
     | some live => (parseThen live str f, live)
   else (parseThen st str f, st)
 
+/-- One evaluation of the `cache` stage as it is now (after cb6fa4b / 3acd3a0 / 6998c9c in /repo): an
+empty text is an error; the format is detected on the first text that has one; it is remembered
+unless the text is `emptyTime` – what the date expression yields when every look-up is empty
+(`EvalStaticStage(dateStage)`, e.g. `2020-01-` for `2020-01-{0}`) – which is parsed like any other
+text.  (The second memory, used while the optimizer analyses the expression, is C10's concern.) -/
+def cacheStepE (emptyTime : Bytes) (st : Bytes) (str : Bytes) (detect : Option Bytes) (f : Parsed → Out) : Out × Bytes :=
+  if str = [] then (.val errorParsing, st)
+  else if st = [] then
+    match detect with
+    | none => (.val errorParsing, st)
+    | some live => (parseThen live str f, if str = emptyTime then st else live)
+  else (parseThen st str f, st)
+
+/-- One compiled `cache` stage evaluated on a sequence of texts (each with what `dateparse.ParseFormat`
+answers for it, and the continuation to apply – the zone oracle may differ per text). -/
+def cacheRun (emptyTime : Bytes) : Bytes → List (Bytes × Option Bytes × (Parsed → Out)) → List Out
+  | _, [] => []
+  | st, (str, det, f) :: r =>
+    (cacheStepE emptyTime st str det f).1 :: cacheRun emptyTime (cacheStepE emptyTime st str det f).2 r
+
+/-- The memory after such a sequence. -/
+def cacheState (emptyTime : Bytes) : Bytes → List (Bytes × Option Bytes × (Parsed → Out)) → Bytes
+  | st, [] => st
+  | st, (str, det, f) :: r => cacheState emptyTime (cacheStepE emptyTime st str det f).2 r
+
+/-! ## rare: the key-words of `{time …}` and the compile-time checks of the time helpers -/
+
+inductive TimeKeyword | now | live | delta
+  deriving DecidableEq, Repr
+
+/-- `kfTimeParse`: a CONSTANT first argument equal (case-insensitively) to `now`, `live` or `delta`
+is not parsed as a date. -/
+def timeKeyword (arg0 : Bytes) : Option TimeKeyword :=
+  let lo := toLower arg0
+  if lo = asc "now" then some .now
+  else if lo = asc "live" then some .live
+  else if lo = asc "delta" then some .delta
+  else none
+
+/-- Compile-time outcome of a time helper called with `argc` arguments: the error kind and marker, or
+`none` (the stage is built).  `constArgs`: which arguments are constants; `bucketOk` / `attrOk` /
+`zoneOk`: the enum / zone checks.  Order of the checks as in the source. -/
+def compileCheck (fn : String) (argc : Nat) (isConst : Nat → Bool) (enumOk zoneOk : Bool) : Option (String × String) :=
+  let argRange := some ("func.argcount", "<ARGN>")
+  if fn = "time" then
+    if argc < 1 ∨ argc > 3 then argRange else if !zoneOk then some ("func.parsing", "<PARSE-ERROR>") else none
+  else if fn = "timeformat" then
+    if argc < 1 ∨ argc > 3 then argRange else if !zoneOk then some ("func.parsing", "<PARSE-ERROR>") else none
+  else if fn = "duration" ∨ fn = "durationformat" then
+    if argc ≠ 1 then argRange else none
+  else if fn = "buckettime" then
+    if argc < 2 ∨ argc > 4 then argRange
+    else if !isConst 1 then some ("func.const", "<CONST>")
+    else if !enumOk then some ("func.enum", "<ENUM>")
+    else if !zoneOk then some ("func.parsing", "<PARSE-ERROR>") else none
+  else if fn = "timeattr" then
+    if argc < 2 ∨ argc > 3 then argRange
+    else if !isConst 1 then some ("func.const", "<CONST>")
+    else if !zoneOk then some ("func.parsing", "<PARSE-ERROR>")
+    else if !enumOk then some ("func.enum", "<ENUM>") else none
+  else none
+
 /-! ## Go `time`: durations -/
 
 /-- `Duration.String()` for |d| ≥ 1 s or d = 0 (`none`: sub-second magnitudes, not produced from
